@@ -234,9 +234,8 @@ theorem message_roundtrip_of_tokens (opt : POpt) (addr : Bytes) (args : List Cel
       takeWhile_notspace addr (sep ++ body) hasp hrest]
     have htake : addr.take adrsize = addr := List.take_of_length_le (by omega)
     simp only [htake, List.drop_left, hskip]
-    have := scanLoop_tokText htt (args.length + 1) args.length 0 [] 0 (by simp) (Nat.le_refl _)
-    unfold scanArgVals
-    simp only [this, List.nil_append, Nat.zero_add]
+    have := scanArgVals_tokText htt
+    simp only [this, Nat.zero_add]
     congr 2
     simp only [List.length_append]
     omega
@@ -272,8 +271,6 @@ theorem single_roundtrip_of_end (opt : POpt) (c : Cell) (hsc : c.isScalar = true
     rw [show (1 : Nat) + 1 = 1 + 1 from rfl, hstep]
     simp [printArgValsLoop, pure, Except.pure]
   · simpa using countPrintedArgVals_tokText htt
-  · unfold scanArgVals
-    have := scanLoop_tokText htt 2 1 0 [] 0 (by simp) (by simp)
-    simpa using this
+  · simpa using scanArgVals_tokText htt
 
 end Rtosc.Pretty
